@@ -3,36 +3,155 @@
  * Every case is generated from its own stream (seed, index), fitted by the real PLS() in a child process (one processor,
  * NIPALS iteration budget, watchdog) and projected onto the ledger of spec/Pls.tla.  All numbers are integers:
  * residuals in units of 1e-12 (saturating at 2e9), table cells of integer-valued cases in units of 1e-6.
- *   Reset{case,tries}
- *   Fit{n,p,ny,nlv,xs,ys,noise,intc,cond}
- *   Lv{a,tortho,wortho,recon,reproj, pnorm,qnorm,udefl,binner}      (last four: implementation-shaped layer)
+ *
+ * The case index selects the input class (idx % 16, table KD_SCHED): the original tall problems, the shape relations
+ * n = p+1 / n = p / n = p-1 / n < p-1 with up to rank = min(p, n-1 | n) latent variables, block-size boundaries, large
+ * offsets, whole-block magnitudes, tied non-representable values, degenerate-but-admissible data, and in-process histories
+ * (fit A, fit A' of the same shape with other data, fit B of another shape, fit A again in ONE process; predictor outputs that already hold other data).
+ *
+ *   Reset{case,tries,sub}
+ *   Fit{n,p,ny,nlv,xs,ys,noise,intc,cond,rank,offx,offy,lgx,lgy,shape,kind,tag,reuse,inst}   inst = rank is the largest the shape allows
+ *   Prep{xavg,yavg,xscl,yscl}               stored centring against the column means of this data; stored scale factors against the option's definition (impl layer)
+ *   Lv{a,tortho,wortho,recon,reproj, pnorm,qnorm,udefl,binner, prows,wrows}   (pnorm..binner: implementation-shaped layer;
+ *                                                      prows/wrows: rows of xloadings/xweights that hold a stored number)
+ *   Score{req,got,err}                      PLSScorePredictor asked for req LVs (req may exceed the model): columns it returned, worst column error
+ *   YPred{a,src,err}                        PLSYPredictor(scores, a): src 0 = stored scores, 1 = re-projected scores; a may exceed the model
+ *   AllLv{cols,scols,scoreErr,err}          PLSYPredictorAllLV with the score output requested
+ *   VarExp{a,err}                           xvarexp[a] against 100 t't / ss(X)        (outside the statement: extra layer)
  *   Col{a,j,col,found,recalcErr,allErr}     found = column of recalculated_y that really holds (a,j), located by value
  *   Resid{a,j,col,against,residErr}         against = response the stored residual column was really taken against
  *   Tab{n,ny,nlv,y,rec,res}                 integer-valued cases: the three tables, so that TLC recomputes rec - y itself
+ *   Hist{fits,same}                         history cases: the model of the last fit is bitwise the model of the first   (extra layer)
+ *   Refit{rc,bsize,reccols,varexp,same} (rc: 0 returned, 99/98 sanitizer abort, 1000+n signal)       history cases: PLS() once more into the model object that already holds this fit   (extra layer)
  *   End{lvs,cols,full,xfull}
  *   Skip{case} (no admissible draw) / Abort{case,rc} (child died: budget 97, watchdog 124, signal 1000+n)
  */
 #include "scientific.h"
 #include "verif_rt.h"
 #include "pls_common.h"
+#include "c03_gen.h"
+#include <fcntl.h>
 
 static unsigned long g_seed;
 
-static void draw_params(pc_case *c, int *nlv, vrng *r, long idx){
-  c->intcase = (idx % 5 == 4);
-  if(c->intcase){
-    c->n = (int)vr_int(r, 6, 9); c->p = (int)vr_int(r, 2, 3); c->ny = (int)vr_int(r, 2, 3);
-    c->noise = (int)vr_int(r, 0, 2); *nlv = (int)vr_int(r, 2, c->p);
-  } else {
-    c->n = (int)vr_int(r, 6, 40);
-    int pmax = c->n - 2 < 12 ? c->n - 2 : 12;
-    c->p = (int)vr_int(r, 1, pmax);
-    c->ny = (int)vr_int(r, 1, 4);
-    c->noise = (int)vr_int(r, 0, 3);
-    *nlv = (idx % 3 == 0) ? c->p : (int)vr_int(r, 1, c->p);
+enum { KD_BASE = 0, KD_WIDE, KD_INT, KD_SQUARE, KD_WIDE1, KD_TALL1, KD_OFFSET, KD_INTWIDE, KD_MAGN, KD_TIES, KD_BLOCK, KD_DEGEN, KD_HIST, KD_WIDERANK, KD_N };
+static const char *KD_NAME[KD_N] = {"base", "wide", "int", "square", "wide1", "tall1", "offset", "intwide", "magn", "ties", "block", "degen", "hist", "widerank"};
+static const int KD_SCHED[16] = {KD_BASE, KD_BASE, KD_BASE, KD_WIDE, KD_INT, KD_SQUARE, KD_WIDE1, KD_TALL1,
+                                 KD_OFFSET, KD_INTWIDE, KD_MAGN, KD_TIES, KD_BLOCK, KD_DEGEN, KD_HIST, KD_WIDERANK};
+
+typedef struct {
+  pc_case c; int kind, nlv, rank, tries, reuse, lgx, lgy; long skipx; double cond; char tag[40];
+} c3_prob;
+
+/* one admissible problem of the given kind; shape < 0: drawn by the kind.  returns 0 when 40 draws were all refused */
+static int draw_problem(c3_prob *q, vrng *r, long idx, int kind, int shape){
+  pc_case *c = &q->c;
+  for(q->tries = 1; q->tries <= 40; q->tries++){
+    int lvrank = 0, lvmin = 1; double lvu = vr_unif(r);
+    int degen = -1;
+    q->kind = kind; q->skipx = -1; q->lgx = q->lgy = 0; q->reuse = (int)vr_int(r, 0, 1); strcpy(q->tag, "-");
+    c->intcase = (kind == KD_INT || kind == KD_INTWIDE); c->nnew = 0;
+    c->xs = (int)vr_int(r, -1, 5); c->ys = (int)vr_int(r, -1, 5);
+    c->ny = (int)vr_int(r, 1, 4); c->noise = (int)vr_int(r, 0, 3);
+    lvrank = ((idx / 16 + idx) % 3 == 0);
+    switch(kind){
+      case KD_BASE:   c3_draw_shape(r, SH_TALL, &c->n, &c->p); lvrank = (idx % 3 == 0); break;
+      case KD_INT:    c->n = (int)vr_int(r, 6, 9); c->p = (int)vr_int(r, 2, 3); c->ny = (int)vr_int(r, 2, 3); c->noise = (int)vr_int(r, 0, 2); lvmin = 2; lvrank = 0; break;
+      case KD_INTWIDE:c->n = (int)vr_int(r, 6, 7); c->p = (int)vr_int(r, c->n - 1, c->n + 2); c->ny = (int)vr_int(r, 2, 3); c->noise = (int)vr_int(r, 0, 2); lvmin = 2; lvrank = (idx / 16) % 2; break;
+      case KD_WIDE:   c3_draw_shape(r, SH_WIDE, &c->n, &c->p); break;
+      case KD_SQUARE: c3_draw_shape(r, SH_SQUARE, &c->n, &c->p); break;
+      case KD_WIDE1:  c3_draw_shape(r, SH_WIDE1, &c->n, &c->p); break;
+      case KD_TALL1:  c3_draw_shape(r, SH_TALL1, &c->n, &c->p); break;
+      case KD_WIDERANK: c3_draw_shape(r, (int)vr_int(r, SH_SQUARE, SH_WIDE), &c->n, &c->p); c->ny = (int)vr_int(r, 2, 4); lvrank = 1; break;
+      case KD_BLOCK: {
+        static const int NB[] = {7, 8, 9, 15, 16, 17, 31, 32, 33, 39, 40, 12, 24}, PB[] = {3, 4, 5, 7, 8, 9, 11, 12};
+        c->n = NB[vr_int(r, 0, 12)]; c->p = PB[vr_int(r, 0, 7)]; break; }
+      case KD_DEGEN:  degen = (int)vr_int(r, 0, 4);
+                      /* duplicate objects keep the largest rank only while objects - duplicates - 1 >= variables: mostly tall there */
+                      c3_draw_shape(r, (degen <= 1 && vr_int(r, 0, 3)) ? SH_TALL : (int)vr_int(r, 0, SH_N - 1), &c->n, &c->p); break;
+      default:        c3_draw_shape(r, shape >= 0 ? shape : (int)vr_int(r, 0, SH_N - 1), &c->n, &c->p); break;
+    }
+    if(kind == KD_MAGN){
+      q->lgx = q->lgy = 0;
+      int small = (int)vr_int(r, 0, 1), which = (int)vr_int(r, 0, 2), lg = small ? -(int)vr_int(r, 3, 6) : (int)vr_int(r, 3, 5);
+      if(which != 1) q->lgx = lg;
+      if(which != 0) q->lgy = lg;
+      if(q->lgx < 0) c->xs = (int)vr_int(r, -1, 0);       /* a block in tiny units can only be centred: scaled options meet the zero-scale guard (C10) */
+      if(q->lgy < 0) c->ys = (int)vr_int(r, -1, 0);
+    }
+    if(kind == KD_DEGEN){ if(degen == 3) c->xs = 0; if(degen == 4 && c->ny < 2) c->ny = 2; if(degen == 2 && c->p < 2) degen = 0; }
+    /* K3 moves CENTRED blocks only.  On a block used as it is (option -1) the offset is signal: cond(X) grows with it, and an uncentred
+     * response c*1 + s on centred predictors makes X'u cancel down to the rounding of c (error ~ eps*c/|remaining s|, unbounded as the
+     * LVs exhaust s) - no bound computable from the input holds there, so such blocks keep the <= 0.5 spreads of the base generator */
+    if(kind == KD_OFFSET && c->xs == -1 && c->ys == -1){ if(vr_int(r, 0, 1)) c->xs = (int)vr_int(r, 0, 5); else c->ys = (int)vr_int(r, 0, 5); }
+
+    if(c->intcase) pc_gen_int(c, r, 5, 20);
+    else {
+      int norm = (c->xs == 1 || c->xs == 2 || c->xs == 4 || c->xs == 5);
+      pc_gen_real(c, r, norm ? -1.0 : 0.0, norm ? 2.0 : 1.0, c->xs == -1 ? 0.5 : 4.0, c->ys == -1 ? 0.5 : 5.0);
+    }
+    int n = c->n, p = c->p;
+    if(kind == KD_OFFSET){
+      int which = c->xs == -1 ? 1 : c->ys == -1 ? 0 : (int)vr_int(r, 0, 2);
+      if(which != 1){ c3_shrink(c->X, r); c3_add_offset(c->X, r, 2.0, 8.0); }
+      if(which != 0){ c3_shrink(c->Y, r); c3_add_offset(c->Y, r, 2.0, 8.0); }
+      snprintf(q->tag, sizeof(q->tag), "K3:%s", which == 0 ? "x" : which == 1 ? "y" : "xy");
+    }
+    if(kind == KD_MAGN){
+      if(q->lgx) c3_scale(c->X, pow(10.0, q->lgx));
+      if(q->lgy) c3_scale(c->Y, pow(10.0, q->lgy));
+      snprintf(q->tag, sizeof(q->tag), "K4:%s", (q->lgx < 0 || q->lgy < 0) ? "small" : "large");
+    }
+    if(kind == KD_TIES){
+      static const double ST[3] = {0.1, 1.0 / 3.0, 1e-3};
+      int sx = (int)vr_int(r, 0, 2), sy = (int)vr_int(r, 0, 2);
+      c3_snap(c->X, ST[sx], 3.0 + 3.0 * vr_int(r, 0, 1)); c3_snap(c->Y, ST[sy], sy == 2 ? 400.0 : 6.0);
+      if(ST[sx] < 0.01 && c->xs >= 1) c3_scale(c->X, 1000.0);          /* keep scaled blocks away from the zero-scale guard */
+      if(ST[sy] < 0.01 && c->ys >= 1) c3_scale(c->Y, 1000.0);
+      snprintf(q->tag, sizeof(q->tag), "K5:grid");
+    }
+    if(kind == KD_DEGEN){
+      if(degen == 0 || degen == 1){                                 /* duplicate objects (with or without their responses) */
+        int pairs = n >= 10 ? 2 : 1;
+        for(int k = 0; k < pairs; k++){
+          int i1 = (int)vr_int(r, 0, n - 1), i2 = (int)vr_int(r, 0, n - 1); if(i1 == i2) i2 = (i1 + 1) % n;
+          for(int j = 0; j < p; j++) c->X->data[i2][j] = c->X->data[i1][j];
+          if(degen == 0) for(int j = 0; j < c->ny; j++) c->Y->data[i2][j] = c->Y->data[i1][j];
+        }
+        snprintf(q->tag, sizeof(q->tag), "K8:%s", degen == 0 ? "dup-rows" : "dup-xrows");
+      } else if(degen == 2){                                        /* duplicate predictor */
+        int j1 = (int)vr_int(r, 0, p - 1), j2 = (j1 + 1 + (int)vr_int(r, 0, p - 2)) % p;
+        for(int i = 0; i < n; i++) c->X->data[i][j2] = c->X->data[i][j1];
+        snprintf(q->tag, sizeof(q->tag), "K8:dup-col");
+      } else if(degen == 3){                                        /* constant predictor with a non-representable value among informative ones */
+        int j1 = (int)vr_int(r, 0, p - 1); double v = 0.1 * (double)vr_int(r, 1, 30);
+        for(int i = 0; i < n; i++) c->X->data[i][j1] = v;
+        q->skipx = j1;
+        snprintf(q->tag, sizeof(q->tag), "K8:const-col");
+      } else {                                                      /* responses with exactly tied variances: mirrored / duplicated response */
+        double sg = vr_int(r, 0, 1) ? -1.0 : 1.0;
+        for(int i = 0; i < n; i++) c->Y->data[i][1] = sg * c->Y->data[i][0];
+        snprintf(q->tag, sizeof(q->tag), "K8:y-tie");
+      }
+    }
+    if(kind == KD_BLOCK) snprintf(q->tag, sizeof(q->tag), "K2:block");
+    if(kind == KD_HIST) snprintf(q->tag, sizeof(q->tag), "K7:hist");
+
+    int rank = 0;
+    if(c3_admit(c, 1e3, &q->cond, &rank, q->skipx)){
+      int bound = c3_rank_bound(n, p, c->xs);
+      /* only the degenerate kind may sit below the largest rank its shape allows */
+      if((rank == bound || kind == KD_DEGEN) && rank >= lvmin){
+        q->rank = rank;
+        q->nlv = lvrank ? rank : lvmin + (int)(lvu * (rank - lvmin + 1));
+        if(q->nlv > rank) q->nlv = rank;
+        if(c->intcase && q->nlv > 4) q->nlv = 4;
+        return 1;
+      }
+    }
+    pc_case_free(c);
   }
-  c->xs = (int)vr_int(r, -1, 5); c->ys = (int)vr_int(r, -1, 5);
-  c->nnew = 0;
+  return 0;
 }
 
 static void emit_table(char *buf, size_t cap, int *pp, const char *name, double **M, int rows, int cols){
@@ -47,48 +166,106 @@ static void emit_table(char *buf, size_t cap, int *pp, const char *name, double 
   *pp = p;
 }
 
-static int one_case(void *arg){
-  long idx = *(long *)arg;
-  vrng r = pc_stream(g_seed, (unsigned long)idx, 3);
-  pc_case c; int nlv = 1, tries = 0, ok = 0; double cond = 0;
-  for(tries = 1; tries <= 30; tries++){
-    draw_params(&c, &nlv, &r, idx);
-    if(c.intcase) pc_gen_int(&c, &r, 5, 20);
-    else {
-      int norm = (c.xs == 1 || c.xs == 2 || c.xs == 4 || c.xs == 5);
-      pc_gen_real(&c, &r, norm ? -1.0 : 0.0, norm ? 2.0 : 1.0, c.xs == -1 ? 0.5 : 4.0, c.ys == -1 ? 0.5 : 5.0);
-    }
-    if(pc_admit(&c, 1e3, &cond)){ ok = 1; break; }
-    pc_case_free(&c);
-  }
-  if(!ok){ VRT_EMIT("{\"e\":\"Skip\",\"case\":%ld}", idx); return 0; }
-  int n = c.n, p = c.p, ny = c.ny;
-  VRT_EMIT("{\"e\":\"Reset\",\"case\":%ld,\"tries\":%d}", idx, tries);
-  VRT_EMIT("{\"e\":\"Fit\",\"n\":%d,\"p\":%d,\"ny\":%d,\"nlv\":%d,\"xs\":%d,\"ys\":%d,\"noise\":%d,\"intc\":%d,\"cond\":%ld}",
-           n, p, ny, nlv, c.xs, c.ys, c.noise, c.intcase, (long)ceil(cond));
+/* an output object that already holds other data of another shape (K7) or a fresh one */
+static matrix *out_matrix(int reuse, int rows, int cols){
+  matrix *m;
+  if(!reuse){ initMatrix(&m); return m; }
+  NewMatrix(&m, rows, cols); MatrixSet(m, 7.25);
+  return m;
+}
+static int last_nonzero(double **M, int rows, int col){ int k = 0; for(int i = 0; i < rows; i++) if(M[i][col] != 0.0) k = i + 1; return k; }
+static long cap9(double x){ return x >= 2e9 ? 2000000000L : (long)ceil(x); }
 
-  PLSMODEL *m; NewPLSModel(&m);
-  PLS(c.X, c.Y, (size_t)nlv, c.xs, c.ys, m, NULL);
+/* stored centring / scaling vectors of one block against their definitions.  *avg: worst |stored average - column mean| / rms spread
+ * (NaN when a vector has the wrong length for the option); *scl: worst relative deviation of the stored scale factor from the option's
+ * definition (1 sample sd, 2 rms about 0, 3 sqrt(sd), 4 range, 5 mean, 0 one) */
+static void prep_check(matrix *M, int opt, dvector *avg, dvector *scal, double *avgerr, double *sclerr){
+  *avgerr = 0; *sclerr = 0;
+  if(opt < 0){ if(avg->size != 0 || scal->size != 0){ *avgerr = NAN; *sclerr = NAN; } return; }
+  if(avg->size != M->col || scal->size != M->col){ *avgerr = NAN; *sclerr = NAN; return; }
+  size_t n = M->row;
+  for(size_t j = 0; j < M->col; j++){
+    long double sum = 0, ss = 0, s2 = 0; double mn = M->data[0][j], mx = mn;
+    for(size_t i = 0; i < n; i++){ double v = M->data[i][j]; sum += v; s2 += (long double)v * v; if(v < mn) mn = v; if(v > mx) mx = v; }
+    long double mean = sum / n;
+    for(size_t i = 0; i < n; i++){ long double d = M->data[i][j] - mean; ss += d * d; }
+    double spread = (double)sqrtl(ss / n), sd = (double)sqrtl(ss / (n - 1));
+    /* a constant column (admitted among informative ones, K8) has no spread: there the deviation is taken relative to the value itself */
+    double amax = fabs(mn) > fabs(mx) ? fabs(mn) : fabs(mx);
+    double den = spread > 1e-9 * amax ? spread : fabs((double)mean) > 0 ? fabs((double)mean) : 1.0;
+    double a = fabs((double)(avg->data[j] - mean)) / den;
+    if(!(a <= *avgerr)) *avgerr = a;
+    double def = opt == 1 ? sd : opt == 2 ? (double)sqrtl(s2 / n) : opt == 3 ? sqrt(sd) : opt == 4 ? mx - mn : opt == 5 ? (double)mean : 1.0;
+    double e = def != 0 ? fabs(scal->data[j] - def) / fabs(def) : (scal->data[j] == 0 ? 0 : NAN);
+    if(!(e <= *sclerr)) *sclerr = e;
+  }
+}
+
+/* every number of the fitted model the ledger looks at, flattened (history comparison) */
+static size_t flatten(PLSMODEL *m, double **out){
+  matrix *M[] = {m->xscores, m->xloadings, m->xweights, m->yscores, m->yloadings, m->recalculated_y, m->recalc_residuals};
+  size_t tot = m->b->size + m->xvarexp->size;
+  for(int k = 0; k < 7; k++) tot += M[k]->row * M[k]->col;
+  double *v = malloc(sizeof(double) * (tot + 1)); size_t o = 0;
+  for(int k = 0; k < 7; k++) for(size_t i = 0; i < M[k]->row; i++) for(size_t j = 0; j < M[k]->col; j++) v[o++] = M[k]->data[i][j];
+  for(size_t i = 0; i < m->b->size; i++) v[o++] = m->b->data[i];
+  for(size_t i = 0; i < m->xvarexp->size; i++) v[o++] = m->xvarexp->data[i];
+  *out = v; return tot;
+}
+
+typedef struct { c3_prob *q; PLSMODEL *m; } refit_arg;
+static int refit_child(void *arg){
+  refit_arg *ra = arg; pc_case c = ra->q->c; PLSMODEL *m = ra->m;
+  int fd = open("/dev/null", O_WRONLY); if(fd >= 0) dup2(fd, 2);
+  double *before = NULL, *after = NULL; size_t nb = flatten(m, &before);
+  PLS(c.X, c.Y, (size_t)ra->q->nlv, c.xs, c.ys, m, NULL);
+  size_t na = flatten(m, &after);
+  VRT_EMIT("{\"e\":\"Refit\",\"rc\":0,\"bsize\":%zu,\"reccols\":%zu,\"varexp\":%zu,\"same\":%d}", m->b->size, m->recalculated_y->col, m->xvarexp->size,
+           (na == nb && memcmp(before, after, sizeof(double) * nb) == 0) ? 1 : 0);
+  return 0;
+}
+
+/* Fit .. End for one fitted model */
+static void project(c3_prob *q, PLSMODEL *m, int hist_fits, int hist_same, int refit){
+  pc_case c = q->c; int nlv = q->nlv;
+  int n = c.n, p = c.p, ny = c.ny;
+  VRT_EMIT("{\"e\":\"Fit\",\"n\":%d,\"p\":%d,\"ny\":%d,\"nlv\":%d,\"xs\":%d,\"ys\":%d,\"noise\":%d,\"intc\":%d,\"cond\":%ld,\"rank\":%d,\"offx\":%ld,\"offy\":%ld,"
+           "\"lgx\":%d,\"lgy\":%d,\"shape\":\"%s\",\"kind\":\"%s\",\"tag\":\"%s\",\"reuse\":%d,\"inst\":%d}",
+           n, p, ny, nlv, c.xs, c.ys, c.noise, c.intcase, (long)ceil(q->cond), q->rank, cap9(c3_offset(c.X, q->skipx)), cap9(c3_offset(c.Y, -1)),
+           q->lgx, q->lgy, C3_SHAPE[c3_shape_of(n, p)], KD_NAME[q->kind], q->tag, q->reuse, q->rank == c3_rank_bound(n, p, c.xs) ? 1 : 0);
 
   /* shapes the rest of the projection relies on; a wrong shape is reported as an unmatched event */
-  if(m->xscores->row != (size_t)n || m->xscores->col != (size_t)nlv || m->xloadings->row != (size_t)p || m->xweights->col != (size_t)nlv ||
-     m->yloadings->row != (size_t)ny || m->b->size != (size_t)nlv || m->recalculated_y->row != (size_t)n || m->recalculated_y->col != (size_t)(ny * nlv) ||
+  if(m->xscores->row != (size_t)n || m->xscores->col != (size_t)nlv || m->xloadings->row != (size_t)p || m->xloadings->col != (size_t)nlv ||
+     m->xweights->row != (size_t)p || m->xweights->col != (size_t)nlv || m->yscores->row != (size_t)n || m->yscores->col != (size_t)nlv ||
+     m->yloadings->row != (size_t)ny || m->yloadings->col != (size_t)nlv || m->b->size != (size_t)nlv ||
+     m->recalculated_y->row != (size_t)n || m->recalculated_y->col != (size_t)(ny * nlv) ||
      m->recalc_residuals->row != (size_t)n || m->recalc_residuals->col != (size_t)(ny * nlv)){
-    VRT_EMIT("{\"e\":\"Shape\",\"trow\":%zu,\"tcol\":%zu,\"reccol\":%zu,\"rescol\":%zu,\"b\":%zu}", m->xscores->row, m->xscores->col, m->recalculated_y->col, m->recalc_residuals->col, m->b->size);
-    return 0;
+    VRT_EMIT("{\"e\":\"Shape\",\"trow\":%zu,\"tcol\":%zu,\"prow\":%zu,\"wrow\":%zu,\"reccol\":%zu,\"rescol\":%zu,\"b\":%zu}", m->xscores->row, m->xscores->col,
+             m->xloadings->row, m->xweights->row, m->recalculated_y->col, m->recalc_residuals->col, m->b->size);
+    return;
   }
   double **T = m->xscores->data, **P = m->xloadings->data, **W = m->xweights->data, **U = m->yscores->data, **Q = m->yloadings->data;
   double *B = m->b->data;
+
+  /* the stored centring is the column mean of THIS data (relative to the column's spread), the stored scale factor is what the
+   * option defines (implementation-shaped layer): both from the data alone, in extended precision */
+  {
+    double xa, xsf, ya, ysf;
+    prep_check(c.X, c.xs, m->xcolaverage, m->xcolscaling, &xa, &xsf);
+    prep_check(c.Y, c.ys, m->ycolaverage, m->ycolscaling, &ya, &ysf);
+    VRT_EMIT("{\"e\":\"Prep\",\"xavg\":%ld,\"yavg\":%ld,\"xscl\":%ld,\"yscl\":%ld}", pc_q12("xavgErr", xa), pc_q12("yavgErr", ya), pc_q12("xsclErr", xsf), pc_q12("ysclErr", ysf));
+  }
 
   /* harness's own preprocessing from the stored centring / scaling vectors */
   double **E = pc_alloc(n, p), **F = pc_alloc(n, ny);
   double e0 = 0;
   for(int i = 0; i < n; i++) for(int j = 0; j < p; j++){ E[i][j] = pc_prep(c.X->data[i][j], m->xcolaverage, m->xcolscaling, j); e0 += E[i][j] * E[i][j]; }
   for(int i = 0; i < n; i++) for(int j = 0; j < ny; j++) F[i][j] = pc_prep(c.Y->data[i][j], m->ycolaverage, m->ycolscaling, j);
+  double ssx = e0;
   e0 = sqrt(e0);
 
-  matrix *ps; initMatrix(&ps); PLSScorePredictor(c.X, m, (size_t)nlv, ps);
-  matrix *all; initMatrix(&all); PLSYPredictorAllLV(c.X, m, NULL, all);
+  matrix *ps = out_matrix(q->reuse, n + 1, nlv + 2); PLSScorePredictor(c.X, m, (size_t)nlv, ps);
+  matrix *all = out_matrix(q->reuse, n + 2, ny * nlv + 1); PLSYPredictorAllLV(c.X, m, NULL, all);
 
   for(int a = 0; a < nlv; a++){
     double nt = pc_colnorm(T, a, n), nw = pc_colnorm(W, a, p);
@@ -116,16 +293,83 @@ static int one_case(void *arg){
     }
     double rp = 0; for(int i = 0; i < n; i++){ double d = ps->data[i][a] - T[i][a]; rp += d * d; }
     double reproj = (ps->row == (size_t)n && ps->col == (size_t)nlv) ? sqrt(rp) / nt : NAN;
-    VRT_EMIT("{\"e\":\"Lv\",\"a\":%d,\"tortho\":%ld,\"wortho\":%ld,\"recon\":%ld,\"reproj\":%ld,\"pnorm\":%ld,\"qnorm\":%ld,\"udefl\":%ld,\"binner\":%ld}",
-             a + 1, pc_q12("tortho", tortho), pc_q12("wortho", wortho), pc_q12("recon", recon), pc_q12("reproj", reproj), pc_q12("pnorm", pnorm), pc_q12("qnorm", qnorm), pc_q12("udefl", udefl), pc_q12("binner", binner));
+    VRT_EMIT("{\"e\":\"Lv\",\"a\":%d,\"tortho\":%ld,\"wortho\":%ld,\"recon\":%ld,\"reproj\":%ld,\"pnorm\":%ld,\"qnorm\":%ld,\"udefl\":%ld,\"binner\":%ld,\"prows\":%d,\"wrows\":%d}",
+             a + 1, pc_q12("tortho", tortho), pc_q12("wortho", wortho), pc_q12("recon", recon), pc_q12("reproj", reproj), pc_q12("pnorm", pnorm), pc_q12("qnorm", qnorm),
+             pc_q12("udefl", udefl), pc_q12("binner", binner), last_nonzero(P, p, a), last_nonzero(W, p, a));
   }
   double xfull = 0; for(int i = 0; i < n; i++) for(int j = 0; j < p; j++) xfull += E[i][j] * E[i][j];
   xfull = sqrt(xfull) / e0;
 
-  /* recalculated responses and residual columns */
-  double **R = m->recalculated_y->data, **S = m->recalc_residuals->data;
+  /* re-projection with another requested LV count (fewer than, and more than, the model has) */
+  {
+    int reqs[3] = {1, nlv + 2, nlv >= 3 ? nlv - 1 : 0};
+    for(int k = 0; k < 3; k++){
+      int req = reqs[k]; if(req < 1) continue;
+      matrix *s2 = out_matrix(q->reuse, n, nlv);        /* same shape as a full re-projection: the resize path that only clears */
+      PLSScorePredictor(c.X, m, (size_t)req, s2);
+      int got = s2->row == (size_t)n ? (int)s2->col : -1;
+      double worst = 0;
+      for(int a = 0; a < got && a < nlv; a++){
+        double d = 0; for(int i = 0; i < n; i++) d += (s2->data[i][a] - T[i][a]) * (s2->data[i][a] - T[i][a]);
+        d = sqrt(d) / pc_colnorm(T, a, n); if(!(d <= worst)) worst = d;
+      }
+      VRT_EMIT("{\"e\":\"Score\",\"req\":%d,\"got\":%d,\"err\":%ld}", req, got, pc_q12("scoreErr", worst));
+      DelMatrix(&s2);
+    }
+  }
+  /* responses from scores at every LV count, one output object used again and again; a = nlv+1 asks for more than the model has */
   double *fit = malloc(sizeof(double) * n);
+  {
+    matrix *yp = out_matrix(q->reuse, n + 1, ny + 2);
+    for(int src = 0; src < 2; src++){
+      double **S = src == 0 ? T : ps->data;
+      matrix *sm = src == 0 ? m->xscores : ps;
+      int psok = (ps->row == (size_t)n && ps->col == (size_t)nlv);      /* a re-projection of the wrong shape is a failed event, never a missing one */
+      for(int a = (src == 0 ? 1 : nlv); a <= nlv + (src == 0 ? 1 : 0); a++){
+        int eff = a > nlv ? nlv : a;
+        if(src == 1 && !psok){ VRT_EMIT("{\"e\":\"YPred\",\"a\":%d,\"src\":%d,\"err\":%ld}", a, src, VQ_MAX); continue; }
+        PLSYPredictor(sm, m, (size_t)a, yp);
+        double worst = 0;
+        if(yp->row != (size_t)n || yp->col != (size_t)ny) worst = NAN;
+        else for(int j = 0; j < ny; j++){
+          double yn = pc_colcnorm(c.Y->data, j, n), d = 0;
+          for(int i = 0; i < n; i++){ double v = 0; for(int k = 0; k < eff; k++) v += B[k] * S[i][k] * Q[j][k]; v = pc_back(v, m->ycolaverage, m->ycolscaling, j); d += (yp->data[i][j] - v) * (yp->data[i][j] - v); }
+          d = sqrt(d) / yn; if(!(d <= worst)) worst = d;
+        }
+        VRT_EMIT("{\"e\":\"YPred\",\"a\":%d,\"src\":%d,\"err\":%ld}", a, src, pc_q12("ypredErr", worst));
+      }
+    }
+    DelMatrix(&yp);
+  }
+  /* all-LV predictor with the scores requested */
+  double **R = m->recalculated_y->data, **S = m->recalc_residuals->data;
   int ncol = ny * nlv;
+  {
+    matrix *tsc = out_matrix(q->reuse, n + 3, nlv + 1), *all2 = out_matrix(q->reuse, n, ncol);
+    PLSYPredictorAllLV(c.X, m, tsc, all2);
+    double sworst = 0, worst = 0;
+    int sok = (tsc->row == (size_t)n && tsc->col == (size_t)nlv), aok = (all2->row == (size_t)n && all2->col == (size_t)ncol);
+    if(sok) for(int a = 0; a < nlv; a++){
+      double d = 0; for(int i = 0; i < n; i++) d += (tsc->data[i][a] - T[i][a]) * (tsc->data[i][a] - T[i][a]);
+      d = sqrt(d) / pc_colnorm(T, a, n); if(!(d <= sworst)) sworst = d;
+    }
+    if(aok) for(int cc = 0; cc < ncol; cc++){
+      double yn = pc_colcnorm(c.Y->data, cc % ny, n), d = 0;
+      for(int i = 0; i < n; i++) d += (all2->data[i][cc] - R[i][cc]) * (all2->data[i][cc] - R[i][cc]);
+      d = sqrt(d) / yn; if(!(d <= worst)) worst = d;
+    }
+    VRT_EMIT("{\"e\":\"AllLv\",\"cols\":%d,\"scols\":%d,\"scoreErr\":%ld,\"err\":%ld}", aok ? (int)all2->col : -1, sok ? (int)tsc->col : -1,
+             sok ? pc_q12("allScoreErr", sworst) : VQ_MAX, aok ? pc_q12("all2Err", worst) : VQ_MAX);
+    DelMatrix(&tsc); DelMatrix(&all2);
+  }
+  /* explained X variance per LV (field xvarexp; not part of the statement) */
+  for(int a = 0; a < nlv; a++){
+    double tt = pc_coldot(T, a, T, a, n);
+    double err = m->xvarexp->size == (size_t)nlv ? fabs(m->xvarexp->data[a] - 100.0 * tt / ssx) / 100.0 : NAN;
+    VRT_EMIT("{\"e\":\"VarExp\",\"a\":%d,\"err\":%ld}", a + 1, pc_q12("varexpErr", err));
+  }
+
+  /* recalculated responses and residual columns */
   for(int a = 1; a <= nlv; a++) for(int j = 0; j < ny; j++){
     int col = ny * (a - 1) + j;
     double yn = pc_colcnorm(c.Y->data, j, n);
@@ -155,18 +399,94 @@ static int one_case(void *arg){
     VRT_EMIT("{\"e\":\"Resid\",\"a\":%d,\"j\":%d,\"col\":%d,\"against\":%d,\"residErr\":%ld}", a, j, col, against, pc_q12("residErr", rown));
   }
   if(c.intcase){
-    static char buf[262144]; int q = 0;
-    q += snprintf(buf + q, sizeof(buf) - q, "{\"e\":\"Tab\",\"n\":%d,\"ny\":%d,\"nlv\":%d", n, ny, nlv);
-    emit_table(buf, sizeof(buf), &q, "y", c.Y->data, n, ny);
-    emit_table(buf, sizeof(buf), &q, "rec", R, n, ncol);
-    emit_table(buf, sizeof(buf), &q, "res", S, n, ncol);
-    q += snprintf(buf + q, sizeof(buf) - q, "}");
+    static char buf[262144]; int qn = 0;
+    qn += snprintf(buf + qn, sizeof(buf) - qn, "{\"e\":\"Tab\",\"n\":%d,\"ny\":%d,\"nlv\":%d", n, ny, nlv);
+    emit_table(buf, sizeof(buf), &qn, "y", c.Y->data, n, ny);
+    emit_table(buf, sizeof(buf), &qn, "rec", R, n, ncol);
+    emit_table(buf, sizeof(buf), &qn, "res", S, n, ncol);
+    qn += snprintf(buf + qn, sizeof(buf) - qn, "}");
     VRT_EMIT("%s", buf);
   }
-  VRT_EMIT("{\"e\":\"End\",\"lvs\":%d,\"cols\":%d,\"full\":%d,\"xfull\":%ld}", nlv, ncol, nlv == p ? 1 : 0, nlv == p ? pc_q12("xfull", xfull) : 0L);
-  pc_max_print();
+  if(hist_fits > 0) VRT_EMIT("{\"e\":\"Hist\",\"fits\":%d,\"same\":%d}", hist_fits, hist_same);
+  if(refit){
+    /* the same problem fitted once more INTO THE SAME model object (a model that already holds a fit), in a child of its own with a
+     * silenced stderr: outside the statement, so neither a sanitizer abort nor a wrong size there may end or taint this case */
+    refit_arg ra = {q, m};
+    int rc = vrt_run_child(refit_child, &ra, 30);
+    if(rc != 0) VRT_EMIT("{\"e\":\"Refit\",\"rc\":%d,\"bsize\":0,\"reccols\":0,\"varexp\":0,\"same\":0}", rc);
+  }
+  int full = (nlv == q->rank);
+  VRT_EMIT("{\"e\":\"End\",\"lvs\":%d,\"cols\":%d,\"full\":%d,\"xfull\":%ld}", nlv, ncol, full, full ? pc_q12("xfull", xfull) : 0L);
   free(fit); pc_free(E, n); pc_free(F, n);
-  DelMatrix(&ps); DelMatrix(&all); DelPLSModel(&m); pc_case_free(&c);
+  DelMatrix(&ps); DelMatrix(&all);
+}
+
+/* another problem with the shape, options, noise class and LV count of `a` but other data (history class: same shape, different data) */
+static int same_shape_problem(c3_prob *q, c3_prob *a, vrng *r){
+  *q = *a; q->c.X = q->c.Y = q->c.Xn = q->c.Yn = NULL;
+  for(q->tries = 1; q->tries <= 40; q->tries++){
+    pc_case *c = &q->c;
+    int norm = (c->xs == 1 || c->xs == 2 || c->xs == 4 || c->xs == 5);
+    pc_gen_real(c, r, norm ? -1.0 : 0.0, norm ? 2.0 : 1.0, c->xs == -1 ? 0.5 : 4.0, c->ys == -1 ? 0.5 : 5.0);
+    int rank = 0;
+    if(c3_admit(c, 1e3, &q->cond, &rank, -1) && rank == a->rank){ q->rank = rank; return 1; }
+    pc_case_free(c);
+  }
+  return 0;
+}
+
+static PLSMODEL *fit(c3_prob *q){
+  PLSMODEL *m; NewPLSModel(&m);
+  PLS(q->c.X, q->c.Y, (size_t)q->nlv, q->c.xs, q->c.ys, m, NULL);
+  return m;
+}
+
+static int one_case(void *arg){
+  long idx = *(long *)arg;
+  int kind = KD_SCHED[idx % 16];
+  vrng r = pc_stream(g_seed, (unsigned long)idx, 3);
+  c3_prob A;
+  if(!draw_problem(&A, &r, idx, kind, -1)){ VRT_EMIT("{\"e\":\"Skip\",\"case\":%ld}", idx); return 0; }
+  if(kind != KD_HIST){
+    VRT_EMIT("{\"e\":\"Reset\",\"case\":%ld,\"tries\":%d,\"sub\":0}", idx, A.tries);
+    PLSMODEL *m = fit(&A);
+    project(&A, m, 0, 0, 0);
+    DelPLSModel(&m);
+  } else {
+    /* fit A, fit A' (same shape and options, other data), fit B (another shape class), fit A again - all in this one process;
+     * A', B and the second A are projected */
+    c3_prob A2, B;
+    vrng r2 = pc_stream(g_seed, (unsigned long)idx, 5), r3 = pc_stream(g_seed, (unsigned long)idx, 7);
+    int shA = c3_shape_of(A.c.n, A.c.p), shB = shA <= SH_TALL1 ? (int)vr_int(&r2, SH_SQUARE, SH_WIDE) : (int)vr_int(&r2, SH_TALL, SH_TALL1);
+    int haveB = draw_problem(&B, &r2, idx, KD_HIST, shB);
+    int haveA2 = same_shape_problem(&A2, &A, &r3);
+    int fits = 1;
+    PLSMODEL *m1 = fit(&A);
+    double *snap1 = NULL, *snap2 = NULL; size_t n1 = flatten(m1, &snap1);
+    DelPLSModel(&m1);
+    if(haveA2){
+      VRT_EMIT("{\"e\":\"Reset\",\"case\":%ld,\"tries\":%d,\"sub\":1}", idx, A2.tries);
+      PLSMODEL *mA2 = fit(&A2);
+      project(&A2, mA2, 0, 0, 0);
+      DelPLSModel(&mA2);
+      pc_case_free(&A2.c); fits++;
+    }
+    if(haveB){
+      VRT_EMIT("{\"e\":\"Reset\",\"case\":%ld,\"tries\":%d,\"sub\":2}", idx, B.tries);
+      PLSMODEL *mB = fit(&B);
+      project(&B, mB, 0, 0, 0);
+      DelPLSModel(&mB);
+      pc_case_free(&B.c); fits++;
+    }
+    PLSMODEL *m2 = fit(&A); fits++;
+    size_t n2 = flatten(m2, &snap2);
+    int same = (n1 == n2) && memcmp(snap1, snap2, sizeof(double) * n1) == 0;
+    VRT_EMIT("{\"e\":\"Reset\",\"case\":%ld,\"tries\":%d,\"sub\":3}", idx, A.tries);
+    project(&A, m2, fits, same, 1);
+    DelPLSModel(&m2); free(snap1); free(snap2);
+  }
+  pc_max_print();
+  pc_case_free(&A.c);
   return 0;
 }
 
